@@ -1,6 +1,7 @@
 import Proofs.Payouts
 import Proofs.Arith
 import Proofs.Bank
+import Proofs.Moves
 /-
   C16 — PEG conversion bank (legacy era): limit, proportional yield, refund.
   Statements are about `payouts` / `refund`, the model functions the correspondence check runs
@@ -87,6 +88,32 @@ example : payouts 100 [(⟨0, "bb"⟩, 70), (⟨0, "aa"⟩, 70), (⟨1, "aa"⟩,
     [(⟨0, "bb"⟩, 46), (⟨0, "aa"⟩, 48), (⟨1, "aa"⟩, 6)] := by decide   -- 2 units of dust to the lowest txid among the top
 example : refund 1000 5 199 1 1 100 = 0 := by decide
 
+/-- **"The unconverted part of the input is refunded in the source asset"**: paying one request
+    credits the requesting address with the yield in PEG and with
+    `Refund(input, yield) = ⌊(⌊in·src/peg⌋ − yield)·peg/src⌋` in the source asset — to nobody else,
+    in no other asset — and the request's history row records exactly that yield and that refund. -/
+theorem request_paid_and_refunded_exactly (P : Params) (h : Nat) (rates : TMap) (rq : PegReq) (y : Nat) (s s' : DB)
+    (hr : payPegReq P h rates rq y s = .ok () s') :
+    (∀ a x, s'.bal a x = s.bal a x + pegDelta P h rates rq y a x) ∧
+    ∀ r ∈ s'.histT, r.hash = rq.key.hash → r.txIndex = (rq.key.idx : Int) →
+      r.toAmount = toInt64 y ∧
+      r.outputs = renderOutputs [(rq.tx.inAddr,
+        refund P.act.pip10 h (toInt64 rq.tx.inAmount) (toInt64 y) (rates.get rq.tx.inType) (rates.get rq.tx.conversion))] := by
+  refine ⟨?_, pegRequest_row_records_payment P h rates rq y s s' hr⟩
+  have := payPegReq_exact P h rates rq y s
+  rw [hr] at this
+  exact this
+
+/-- the whole pass: every request of the block gets its `Payouts` share and its refund -/
+theorem bank_pass_pays_and_refunds_exactly (P : Params) (h : Nat) (rates avgs : TMap) (batches : List TxEntry)
+    (bank : Nat) (bh : Int) (s : DB) :
+    Outcome (recordPegRequests P h rates avgs batches bank bh s)
+      (fun _ s' => ∀ a x, s'.bal a x = s.bal a x +
+        (((pegRequests P h rates avgs batches).zip
+            (payouts bank ((pegRequests P h rates avgs batches).map fun r => (r.key, r.requested)))).map
+          (fun rp => pegDelta P h rates rp.1 rp.2.2 a x)).sum) :=
+  recordPegRequests_exact P h rates avgs batches bank bh s
+
 end Pegnet.C16
 
 #print axioms Pegnet.C16.bank_limit
@@ -97,3 +124,5 @@ end Pegnet.C16
 #print axioms Pegnet.C16.refund_value
 #print axioms Pegnet.C16.block_peg_creation_within_bank
 #print axioms Pegnet.C16.bank_row_records_used_and_requested
+#print axioms Pegnet.C16.request_paid_and_refunded_exactly
+#print axioms Pegnet.C16.bank_pass_pays_and_refunds_exactly
